@@ -1,7 +1,7 @@
 (* C06 -- property theorems.  Statements only; every proof is `exact <lemma>`. *)
 From Coq Require Import ZArith List Bool.
 Import ListNotations.
-Require Import EmbossV.Text.IntCodec EmbossV.Text.ProofsInt EmbossV.Text.ProofsToken EmbossV.Text.StructText
+Require Import EmbossV.Text.IntCodec EmbossV.Text.ProofsInt EmbossV.Text.ProofsBuffer EmbossV.Text.ProofsToken EmbossV.Text.StructText
                EmbossV.Text.ProofsStruct EmbossV.Text.ProofsArray EmbossV.Text.ProofsRoundtrip.
 Open Scope Z_scope.
 
@@ -60,6 +60,18 @@ Theorem encode_injective : forall t x y base grp b' g' text,
   base_ok base = true -> base_ok b' = true -> fits t x = true -> fits t y = true ->
   encode_int t x base grp = Ok text -> encode_int t y b' g' = Ok text -> x = y.
 Proof. exact encode_injective_lem. Qed.
+
+(* WriteIntegerToTextStream fills `char buffer[buffer_size]` from its end: every text is at most
+   buffer_size - 1 characters long, so the index next_char never goes below 0
+   (EMBOSS_DCHECK_GE(next_char, 0)); the bound is attained. *)
+Theorem encode_fits_buffer : forall t x base grp text,
+  encode_int t x base grp = Ok text -> Z.of_nat (length text) <= buffer_size t - 1.
+Proof. exact encode_fits_buffer_lem. Qed.
+
+Example encode_buffer_bound_attained :
+  exists text, encode_int (mk_ity true W64) (-9223372036854775808) 2 true = Ok text /\
+               Z.of_nat (length text) = buffer_size (mk_ity true W64) - 1.
+Proof. exact buffer_tight_example. Qed.
 
 (* ---------------- tokens and white space ---------------- *)
 Theorem read_token_total : forall s, read_token s <> None.
